@@ -569,5 +569,8 @@ func (e *errReader) Read(p []byte) (n int, err error) {
 	defer func() {
 		e.err = err
 	}()
+	if e.r == nil { // A stream without a source is empty.
+		return 0, io.EOF
+	}
 	return e.r.Read(p)
 }
